@@ -160,6 +160,27 @@ func init() {
 		_, path := x.seqOf(st, args[0], cc.Args[0].Type())
 		return x.openFile(st, cc, path, num(oRDWR|oCREATE|oTRUNC), evCreate)
 	}
+	ifaceMethods["Remove"] = func(x *Exec, st *State, fr *Frame, cc *ssa.CallCommon, iv IfaceV, args []Val, instr ssa.Instruction) []Outcome {
+		if len(args) != 1 {
+			return nil
+		}
+		_, path := x.seqOf(st, args[0], cc.Args[0].Type())
+		x.traceAdd(st, 7, path, "0", sEmpty(SSeqI))
+		store, ex := x.storeGet(st)
+		exists := app("select", ex, path)
+		// absent: fs.ErrNotExist
+		absent := st.fork()
+		absent.assume(tNot(exists))
+		// other failure: nothing changes
+		bad := st.fork()
+		st.assume(exists)
+		st.ghost["store"] = TV{x.storeSort(), app("store", store, path, sEmpty(SSeqI))}
+		st.ghost["exists"] = TV{"(Array " + SSeqI + " Bool)", app("store", ex, path, "false")}
+		e := x.freshErr(bad, "rmerr")
+		bad.assume(tNot(tEq(e.Class, "3")))
+		return []Outcome{{absent, ErrV{Class: "3", Wrapped: "true"}}, {bad, e}, {st, nilErr()}}
+	}
+	externDoc["interface method Remove"] = "afero.Fs.Remove(name): recorded on the trace; removes the file, or fails with fs.ErrNotExist iff it is absent, or fails otherwise without effect"
 	ifaceMethods["Name"] = func(x *Exec, st *State, fr *Frame, cc *ssa.CallCommon, iv IfaceV, args []Val, instr ssa.Instruction) []Outcome {
 		return one(st, TV{SSeqI, x.freshBytes(st, "fsname")})
 	}
@@ -239,6 +260,18 @@ func init() {
 	specFuncs["file"] = func(e *specEnv, args []SV) SV {
 		store, _ := e.x.storeGet(e.st)
 		return SV{V: TV{SSeqI, app("select", store, e.term(args[0]))}, T: types.NewSlice(types.Typ[types.Uint8])}
+	}
+	// sameFilesExcept(p): every file other than p has the content and existence it had at entry
+	specFuncs["sameFilesExcept"] = func(e *specEnv, args []SV) SV {
+		if e.old == nil {
+			return e.fail("sameFilesExcept without entry state")
+		}
+		store, ex := e.x.storeGet(e.st)
+		ostore, oex := e.x.storeGet(e.old)
+		e.x.freshN++
+		q := fmt.Sprintf("q_p_%d", e.x.freshN)
+		p := e.term(args[0])
+		return SV{V: TV{SBool, fmt.Sprintf("(forall ((%s %s)) (=> (not (= %s %s)) (and (= (select %s %s) (select %s %s)) (= (select %s %s) (select %s %s)))))", q, SSeqI, q, p, store, q, ostore, q, ex, q, oex, q)}}
 	}
 	specFuncs["fileExists"] = func(e *specEnv, args []SV) SV {
 		_, ex := e.x.storeGet(e.st)
